@@ -140,12 +140,21 @@ class DefaultHandler(BaseHandler):
                 'type': msg_type
             }
             msg_record.update(msg)
+            # serialise first and write the line with one call, so that a
+            # message that can not be serialised never leaves half a line
             try:
-                json.dump(msg_record, msg_file)
+                line = json.dumps(msg_record)
             except Exception as e:
                 LOG.error(e)
                 LOG.info('raw message %s', msg)
-            msg_file.write('\n')
+                # keep the record and its sequence number, log the message as text
+                line = json.dumps({
+                    't': timestamp,
+                    'seq': msg_seq,
+                    'type': msg_type,
+                    'msg': repr(msg.get('msg'))
+                })
+            msg_file.write(line + '\n')
             self.msg_sequence[peer.lower()] += 1
             msg_file.flush()
             os.fsync(msg_file.fileno())
